@@ -27,7 +27,8 @@ theorem formatDecimal_chars_g (g : Grouping) (sc : Nat) (hs : g.sep = [sc]) (hnd
     exact digit_chars _ 0 n h c (by simp [List.mem_filter, hc, hcs])
 
 theorem formatted_ok_g (ha : AlnumOK alnum) (g : Grouping) (sc : Nat) (hs : g.sep = [sc])
-    (hnd : ¬ (48 ≤ sc ∧ sc ≤ 57)) (hsc : alnum sc = true) (t width n : Nat) (ht : TypeOK t) (hfit : NumFits t n) :
+    (hnd : ¬ (48 ≤ sc ∧ sc ≤ 57)) (hsc : alnum sc = true) (hraw : g.rawSepLen ≤ 1) (t width n : Nat) (ht : TypeOK t)
+    (hfit : NumFits t n) :
     ∃ s, getFormattedNumber g t width n = some s ∧ s ≠ [] ∧ Homog alnum true s ∧ decodeNumber t [sc] s = some n := by
   by_cases hspecial : t = 65 ∨ t = 97 ∨ t = 73 ∨ t = 105
   · obtain ⟨s, h1, h2, h3, h4⟩ := formatted_ok alnum ha t width n ht hfit
@@ -45,7 +46,7 @@ theorem formatted_ok_g (ha : AlnumOK alnum) (g : Grouping) (sc : Nat) (hs : g.se
     have hd := formatDecimal_grouping_roundtrip g sc hs hnd n width
     rw [hs] at hd
     have hch := formatDecimal_chars_g g sc hs hnd n width
-    refine ⟨formatDecimal g width n, by simp [getFormattedNumber, e65, e97, e73, e105, ht.1, ht.2], ?_, ?_,
+    refine ⟨formatDecimal g width n, by simp [getFormattedNumber, e65, e97, e73, e105, ht.1, ht.2, hraw], ?_, ?_,
       by simp [decodeNumber, e65, e97, e73, e105, hd]⟩
     · intro he
       rw [he] at hd
@@ -60,12 +61,12 @@ theorem formatted_ok_g (ha : AlnumOK alnum) (g : Grouping) (sc : Nat) (hs : g.se
 /-- list round trip **with grouping**, for a letter/digit predicate that counts the grouping separator as part of a
 number (what `decodeList` does) -/
 theorem formatList_roundtrip_grouping_aux (ha : AlnumOK alnum) (g : Grouping) (sc : Nat) (hu : g.used = true)
-    (hz : g.size ≠ 0) (hs : g.sep = [sc]) (hnd : ¬ (48 ≤ sc ∧ sc ≤ 57)) (hsc : alnum sc = true)
+    (hz : g.size ≠ 0) (hs : g.sep = [sc]) (hraw : g.rawSepLen ≤ 1) (hnd : ¬ (48 ≤ sc ∧ sc ≤ 57)) (hsc : alnum sc = true)
     (fmt : Str) (l : List Nat) (hl : l ≠ [])
     (hr : ∀ i, i < l.length → NumFits ((numberTypes alnum fmt).getD i ((numberTypes alnum fmt).getLastD 49)) (l.getD i 0))
     (ht : ∀ t ∈ numberTypes alnum fmt, TypeOK t) :
     ∃ out, formatNumberList alnum g fmt l = some out ∧ decodeList alnum g fmt out = some l := by
-  apply formatList_roundtrip_gen alnum ha g [sc] (formatted_ok_g alnum ha g sc hs hnd hsc) fmt _ l hl hr ht
+  apply formatList_roundtrip_gen alnum ha g [sc] (formatted_ok_g alnum ha g sc hs hnd hsc hraw) fmt _ l hl hr ht
   intro out
   have e : (fun c => alnum c || ([sc] : Str).contains c) = alnum := by
     funext c
@@ -152,7 +153,7 @@ theorem formatNumberList_congr (p q : Nat → Bool) (g : Grouping) (fmt : Str) (
     · intro c hc
       exact hfmt' c (tokens_mem q _ t ht c hc)
   constructor
-  · simp only [formatNumberList, htok, fmtLoop_congr p q]
+  · simp only [formatNumberList, formatNumberListP, htok, fmtLoop_congr p q]
     rw [hfa _ (getD_mem_or_nil _ 0), hfa _ (getD_mem_or_nil _ _)]
   · simp only [numberTypes, htok]
     congr 1
@@ -163,7 +164,7 @@ theorem formatNumberList_congr (p q : Nat → Bool) (g : Grouping) (fmt : Str) (
 /-- **list round trip with grouping**, for the real `isXMLLetterOrDigit` (`p`): a one-character grouping separator
 that is neither a letter/digit nor `.` nor NUL and does not occur in the format string -/
 theorem formatList_roundtrip_grouping_real (p : Nat → Bool) (ha : AlnumOK p) (g : Grouping) (sc : Nat) (hu : g.used = true)
-    (hz : g.size ≠ 0) (hs : g.sep = [sc]) (hpsc : p sc = false) (hdot : sc ≠ 46) (h0 : sc ≠ 0)
+    (hz : g.size ≠ 0) (hs : g.sep = [sc]) (hraw : g.rawSepLen ≤ 1) (hpsc : p sc = false) (hdot : sc ≠ 46) (h0 : sc ≠ 0)
     (fmt : Str) (hfmt : sc ∉ fmt) (l : List Nat) (hl : l ≠ [])
     (hr : ∀ i, i < l.length → NumFits ((numberTypes p fmt).getD i ((numberTypes p fmt).getLastD 49)) (l.getD i 0))
     (ht : ∀ t ∈ numberTypes p fmt, TypeOK t) :
@@ -181,7 +182,7 @@ theorem formatList_roundtrip_grouping_real (p : Nat → Bool) (ha : AlnumOK p) (
   have hcongr := formatNumberList_congr p q g fmt l (hpq 0 (by omega))
     (hpq 49 (by intro h; exact hnd (by omega))) (fun c hc => hpq c (by intro h; subst h; exact hfmt hc))
   rw [hcongr.2] at hr ht
-  obtain ⟨out, h1, h2⟩ := formatList_roundtrip_grouping_aux q hq g sc hu hz hs hnd (by simp [q]) fmt l hl hr ht
+  obtain ⟨out, h1, h2⟩ := formatList_roundtrip_grouping_aux q hq g sc hu hz hs hraw hnd (by simp [q]) fmt l hl hr ht
   refine ⟨out, by rw [hcongr.1]; exact h1, ?_⟩
   rw [← h2]
   have e : (fun c => p c || ([sc] : Str).contains c) = (fun c => q c || ([sc] : Str).contains c) := by
